@@ -50,6 +50,50 @@ def dicts():
     return out
 
 
+def restoration(J, failures):
+    """leaving an _additional_headers block, normally or through an exception, puts back exactly the headers that were in
+    force before it - also when the block's dictionary equals one that is already on the stack (an empty one, the
+    constructor's, the enclosing block's)"""
+    n = 0
+    small = [{}, {"X-A": "1"}, {"X-A": "2"}, {"X-B": "1"}, {"x-a": "1"}, {"X-A": "1", "X-B": "1"}]
+
+    def snap(t):
+        return [dict(d) for d in t.additional_headers]
+
+    for h0 in (None, {}, {"X-A": "1"}, {"X-B": "1"}):
+        for outer in small:
+            for inner in small:
+                for how in ("normal", "exception-caught-between", "exception-through-both"):
+                    n += 1
+                    where = {"constructor": h0, "outer": outer, "inner": inner, "exit": how}
+                    try:
+                        p = J.ServerProxy("http://127.0.0.1:1/x", headers=None if h0 is None else dict(h0))
+                        t = p._ServerProxy__transport
+                        s0 = snap(t)
+                        try:
+                            with p._additional_headers(dict(outer)):
+                                s1 = snap(t)
+                                try:
+                                    with p._additional_headers(dict(inner)):
+                                        if how != "normal":
+                                            raise KeyError("block fails")
+                                except KeyError:
+                                    if how == "exception-through-both":
+                                        raise
+                                if snap(t) != s1:
+                                    failures.append({"name": "jsonrpclib.jsonrpc.ServerProxy._additional_headers/bounded[restoration]",
+                                                     "input": where, "observed": "after the inner block %r, before it %r" % (snap(t), s1)})
+                        except KeyError:
+                            pass
+                        if snap(t) != s0:
+                            failures.append({"name": "jsonrpclib.jsonrpc.ServerProxy._additional_headers/bounded[restoration]",
+                                             "input": where, "observed": "after the blocks %r, before them %r" % (snap(t), s0)})
+                    except Exception as e:      # noqa
+                        failures.append({"name": "jsonrpclib.jsonrpc.ServerProxy._additional_headers/bounded[restoration]",
+                                         "input": where, "observed": "raised %s: %s" % (type(e).__name__, e)})
+    return n
+
+
 def run(tier="quick", seed=0):
     import jsonrpclib.jsonrpc as J
     import jsonrpclib.config as C
@@ -60,6 +104,7 @@ def run(tier="quick", seed=0):
     rng.shuffle(triples)
     stacks += triples[: (3000 if tier == "quick" else 40000)]
     failures, n = [], 0
+    n += restoration(J, failures)
     for stack in stacks:
         for extra in ([], [("Authorization", "Basic x")], [("X-A", "auth")]):
             t = J.TransportMixIn(C.Config(user_agent="UA"))
@@ -102,5 +147,6 @@ def run(tier="quick", seed=0):
             break
     return {"kind": "exhaustive enumeration of header stacks on the real emit_additional_headers/send_content (bounded)",
             "bound": "all stacks of 0-2 dictionaries (each with at most two of the names %r, str, int, float, bool and None values) and %d sampled "
-                     "stacks of 3, each with three variants of the inherited extra headers" % (NAMES, 3000 if tier == "quick" else 40000),
+                     "stacks of 3, each with three variants of the inherited extra headers; restoration: 4 constructor headers x 6 x 6 nested blocks "
+                     "(equal dictionaries included) x 3 ways of leaving" % (NAMES, 3000 if tier == "quick" else 40000),
             "evaluations": n, "failures": failures}
